@@ -393,7 +393,7 @@ def add_space(rng, formula):
             prev = formula[i - 1] if i else ''
             # do not separate the two characters of <=, >=, <> nor a name from '('
             if not (ch in '=>' and prev in '<>') and not (ch == '(' and (prev.isalnum() or prev in '_.')):
-                out.append(rng.choice([' ', '  ', '\t', '\n']))
+                out.append(rng.choice([' ', '  ', '\t', '\n', '\r\n']))
         out.append(ch)
         if ch in '+-*/&,(' and rng.random() < 0.2:
             nxt = formula[i + 1] if i + 1 < len(formula) else ''
